@@ -58,6 +58,13 @@ struct X {
   }
   // the application sends a request of its own; it is allocated packet identifier 1, the same number the broker uses
   void ev_own_publish() { if (own >= 0) vk_assume(0); own = w.publish<qos_e::at_least_once>("o", "O"); vk::drain(); vk_reach("own-publish"); }
+  // the broker already has the bytes of the write in progress (and may react: PUBREL for a PUBREC it just got) while the client
+  // has not yet seen its write complete
+  int nearly = 0;
+  void ev_early_delivery() {
+    auto* s = vk::pending_write(); if (!s || s->delivered_early || nearly >= 1) vk_assume(0);
+    nearly++; int before = w.npk; w.deliver_early(s); on_client_packets(before); vk_reach("early-delivery");
+  }
   void ev_write_done() {
     auto* s = vk::pending_write(); if (!s) vk_assume(0);
     int before = w.npk; w.finish_write(s, s->wdata.size(), {}); vk::drain(); on_client_packets(before);
@@ -66,7 +73,9 @@ struct X {
     if (w.connected()) {
       if (nreconn >= 1) vk_assume(0); nreconn++;
       // a write in progress either fails, or succeeds locally while its bytes are lost with the connection
-      if (auto* s = vk::pending_write()) if (vk_choose(2)) {
+      // (a write whose bytes all reached the broker has completed successfully on a TCP socket, whatever happens to the connection afterwards)
+      if (auto* s = vk::pending_write()) if (s->delivered_early) { int b0 = w.npk; w.finish_write(s, s->wdata.size(), {}); vk::drain(); on_client_packets(b0); }
+      if (auto* s = vk::pending_write()) if (!s->delivered_early && vk_choose(2)) {
         const uint8_t* p = reinterpret_cast<const uint8_t*>(s->wdata.data()); size_t n = s->wdata.size(), i = 0;
         while (i < n) { ref::packet k; if (ref::decode(p + i, n - i, k) != ref::OK) break; if (k.type == ref::PUBCOMP) for (int j = 0; j < nm; j++) if (m[j].pid == k.pid) m[j].comp_lost = true; i += k.total; }
         w.lose_write(s); vk::drain(); vk_reach("write-lost-in-flight");
@@ -101,11 +110,14 @@ struct X {
       vk_assert(j > last_tag_per_qos[m[j].qos] || m[j].qos == 1, "messages of one QoS level were delivered out of order");
       if (j > last_tag_per_qos[m[j].qos]) last_tag_per_qos[m[j].qos] = j;
     }
+    // while the broker is ahead of the client (it has the bytes of a write whose completion the client has not processed yet) the
+    // client may still owe the application what it has already acknowledged on the wire
+    bool broker_ahead = vk::pending_write() && vk::pending_write()->delivered_early;
     for (int i = 0; i < nm; i++) {
       if (m[i].qos == 2) vk_assert(m[i].delivered <= 1, "a QoS 2 message was handed to the application more than once");
       if (m[i].qos == 0) vk_assert(m[i].delivered <= 1, "a QoS 0 message was handed to the application more than once");
-      if (m[i].qos == 2 && m[i].got_comp) vk_assert(m[i].delivered == 1, "QoS 2 exchange completed (PUBCOMP) but the message was not delivered exactly once");
-      if (m[i].qos == 1 && m[i].got_ack) vk_assert(m[i].delivered >= 1, "QoS 1 message acknowledged (PUBACK) but never delivered");
+      if (m[i].qos == 2 && m[i].got_comp && !broker_ahead) vk_assert(m[i].delivered == 1, "QoS 2 exchange completed (PUBCOMP) but the message was not delivered exactly once");
+      if (m[i].qos == 1 && m[i].got_ack && !broker_ahead) vk_assert(m[i].delivered >= 1, "QoS 1 message acknowledged (PUBACK) but never delivered");
       if (m[i].delivered) vk_reach(m[i].qos == 2 ? "qos2-delivered" : m[i].qos == 1 ? "qos1-delivered" : "qos0-delivered");
     }
   }
@@ -117,12 +129,13 @@ extern "C" void h_recv(void) {
   for (int step = 0; step < VK_STEPS; step++) {
     while (w.receive_pending == 0 && w.nmsgs < MAXMSG - 1) w.receive();
     vk::drain();
-    uint32_t ev = vk_choose(5);
+    uint32_t ev = vk_choose(6);
     switch (ev) {
       case 0: x->ev_new_publish(); break;
       case 1: x->ev_pubrel(); break;
       case 2: x->ev_write_done(); break;
       case 3: x->ev_own_publish(); break;
+      case 4: x->ev_early_delivery(); break;
       default: x->ev_reconnect(); break;
     }
     while (w.receive_pending == 0 && w.nmsgs < MAXMSG - 1) { w.receive(); vk::drain(); }
